@@ -210,10 +210,17 @@ impl<T: Qcow2IoOps> Qcow2Dev<T> {
                             let key = cache_off >> info.cluster_bits();
 
                             if let Entry::Vacant(slot) = cluster_map.entry(key) {
-                                let cls_map = self.new_cluster.read().await;
+                                // Never wait for the per-cluster lock with the map's read
+                                // guard held: the lock's owner (another flush of a sibling
+                                // slice) keeps it until it has removed the cluster from the
+                                // map, which needs the map's write lock.
+                                let cluster = {
+                                    let cls_map = self.new_cluster.read().await;
+                                    cls_map.get(&key).cloned()
+                                };
                                 // keep this cluster locked, so that concurrent discard can
                                 // be avoided
-                                if let Some(cluster) = cls_map.get(&key) {
+                                if let Some(cluster) = cluster {
                                     let mut locked_cls = cluster.write().await;
 
                                     log::debug!(
